@@ -598,12 +598,16 @@ pub mod sync {
 
 /// Re-creates the process-global registry from scratch (ids, generations, counters all as in a
 /// fresh process). The caller guarantees that no registry call and no signal handler is running
-/// and restores the kernel's dispositions itself.
-pub fn reset_registry() {
+/// and restores the kernel's dispositions itself. With `leak` the old registry is forgotten
+/// instead of dropped (for a checker that abandoned threads which may still point into it).
+pub fn reset_registry(leak: bool) {
     use std::collections::HashMap;
     let _ = super::GlobalData::ensure();
     unsafe {
         let slot = &mut *std::ptr::addr_of_mut!(super::GLOBAL_DATA);
+        if leak {
+            std::mem::forget(slot.take());
+        }
         *slot = Some(super::GlobalData {
             data: super::HalfLock::new(super::SignalData {
                 signals: HashMap::new(),
